@@ -47,7 +47,10 @@ struct SKLB {
     #[br(if(version == 0x3133_3030u32 || version == 0x3133_3031u32))]
     sklb_v2: Option<SklbV2>,
 
-    #[br(seek_before(SeekFrom::Start(if (version == 0x3132_3030u32) { sklb_v1.as_ref().unwrap().havok_offset as u64 } else { sklb_v2.as_ref().unwrap().havok_offset as u64 })))]
+    #[br(try_calc = sklb_v1.as_ref().map(|x| x.havok_offset as u64).or(sklb_v2.as_ref().map(|x| x.havok_offset as u64)).ok_or("unknown sklb version"))]
+    havok_offset: u64,
+
+    #[br(seek_before(SeekFrom::Start(havok_offset)))]
     #[br(parse_with = until_eof)]
     raw_data: Vec<u8>,
 }
@@ -84,25 +87,22 @@ impl Skeleton {
         let raw_animation_container = root.find_object_by_type("hkaAnimationContainer");
         let animation_container = HavokAnimationContainer::new(raw_animation_container);
 
-        let havok_skeleton = &animation_container.skeletons[0];
+        let havok_skeleton = animation_container.skeletons.first()?;
 
         let mut skeleton = Skeleton { bones: vec![] };
 
         for (index, bone) in havok_skeleton.bone_names.iter().enumerate() {
+            let pose = havok_skeleton.reference_pose.get(index)?;
             skeleton.bones.push(Bone {
                 name: bone.clone(),
-                parent_index: havok_skeleton.parent_indices[index] as i32,
+                parent_index: *havok_skeleton.parent_indices.get(index)? as i32,
                 position: [
-                    havok_skeleton.reference_pose[index].translation[0],
-                    havok_skeleton.reference_pose[index].translation[1],
-                    havok_skeleton.reference_pose[index].translation[2],
+                    pose.translation[0],
+                    pose.translation[1],
+                    pose.translation[2],
                 ],
-                rotation: havok_skeleton.reference_pose[index].rotation,
-                scale: [
-                    havok_skeleton.reference_pose[index].scale[0],
-                    havok_skeleton.reference_pose[index].scale[1],
-                    havok_skeleton.reference_pose[index].scale[2],
-                ],
+                rotation: pose.rotation,
+                scale: [pose.scale[0], pose.scale[1], pose.scale[2]],
             });
         }
 
